@@ -679,8 +679,18 @@ func c19Run(c *caseCtx) (res caseResult) {
 				for _, m := range ms {
 					selectorSaw = append(selectorSaw, m.ID)
 				}
+				if sel%3 == 0 {
+					// a select function may hand back a Member value of its own for the member it picked
+					return ms[sel%len(ms)].CloneVT()
+				}
 				return ms[sel%len(ms)]
 			})
+			// now and then an activation that leaves the id to the hosting engine
+			idless := false
+			if _, isActive := active[kind+"/"+id]; !isActive && strings.HasPrefix(id, "a") && r.Intn(10) == 0 {
+				idless = true
+				cfg = cfg.WithID("")
+			}
 			key := kind + "/" + id
 			before := map[*c19Node]int{}
 			for _, n := range nodes {
@@ -730,6 +740,17 @@ func c19Run(c *caseCtx) (res caseResult) {
 				}
 				if strings.Join(selectorSaw, ",") != strings.Join(capIDs, ",") {
 					res.violate("step %d: %s: the select function was offered members %v, the members that registered the kind are %v", step, what, selectorSaw, capIDs)
+				}
+				if idless {
+					what += " (id left to the hosting engine)"
+					if pid == nil || pid.Address != host.addr || !strings.HasPrefix(pid.ID, kind+"/") || pid.ID == kind+"/" {
+						res.violate("step %d: %s returned %v, expected an actor of kind %s with an id of its own on %s (the member chosen by the select function)", step, what, pid, kind, host.addr)
+						pid = nil
+					} else {
+						want = pid
+						key = pid.ID
+						id = strings.TrimPrefix(pid.ID, kind+"/")
+					}
 				}
 				if pid == nil || !pid.Equals(want) {
 					res.violate("step %d: %s returned %v, expected %v (the member chosen by the select function)", step, what, pid, want)
